@@ -178,6 +178,13 @@ pub enum RE {
     Bin(BinOp, Box<RE>, Box<RE>),
 }
 
+/// `x.f.0` lexes as `x . f.0` (a float literal): a field named like a float/decimal prefix must be
+/// separated from a following numeric index
+fn field_merges_with_index(f: &str) -> bool {
+    let b = f.as_bytes();
+    (b[0] == b'f' || b[0] == b'd') && b[1..].iter().all(|c| c.is_ascii_digit())
+}
+
 impl RE {
     pub fn un(op: UnOp, e: RE) -> RE {
         RE::Un(op, Box::new(e))
@@ -356,6 +363,127 @@ impl RE {
         Some(s)
     }
 
+    /// number of nodes (preorder positions) that can carry an extra pair of parentheses
+    pub fn paren_positions(&self) -> usize {
+        self.size()
+    }
+
+    /// minimal parentheses plus one extra pair around every node whose preorder index is set in
+    /// `mask` (parentheses only group, so the tree is unchanged)
+    pub fn unparse_with_extra(&self, mask: u64) -> Option<String> {
+        let mut s = String::new();
+        let mut idx = 0usize;
+        self.unparse_masked(&mut s, mask, &mut idx, 0)?;
+        Some(s)
+    }
+
+    fn unparse_masked(&self, out: &mut String, mask: u64, idx: &mut usize, min_level: u8) -> Option<()> {
+        let me = *idx;
+        *idx += 1;
+        let extra = me < 64 && (mask >> me) & 1 == 1;
+        let need = self.level() < min_level;
+        if extra {
+            out.push('(');
+        }
+        if need {
+            out.push('(');
+        }
+        // inside parentheses any expression is allowed
+        match self {
+            RE::Val(_) | RE::Ref(_) | RE::Sym(_) => {
+                self.unparse_into(out, false)?;
+            }
+            RE::Call(n, a) => {
+                if !is_ident(n) {
+                    return None;
+                }
+                out.push_str(n);
+                out.push('(');
+                a.unparse_masked(out, mask, idx, 0)?;
+                out.push(')');
+            }
+            RE::IdxF(x, f) => {
+                if !is_ident(f) {
+                    return None;
+                }
+                x.unparse_masked(out, mask, idx, 8)?;
+                out.push('.');
+                out.push_str(f);
+            }
+            RE::IdxN(x, n) => {
+                let lit = matches!(**x, RE::Val(RV::Float(_)) | RE::Val(RV::Dec(_)))
+                    || matches!(&**x, RE::IdxF(_, f) if field_merges_with_index(f));
+                x.unparse_masked(out, mask, idx, if lit { 10 } else { 8 })?;
+                out.push('.');
+                out.push_str(&n.to_string());
+            }
+            RE::If(c, t, e) => {
+                out.push_str("if ");
+                c.unparse_masked(out, mask, idx, 0)?;
+                out.push_str(" then ");
+                t.unparse_masked(out, mask, idx, 0)?;
+                out.push_str(" else ");
+                e.unparse_masked(out, mask, idx, 0)?;
+            }
+            RE::Map(m) => {
+                out.push('{');
+                for (i, (k, v)) in m.iter().enumerate() {
+                    if !is_ident(k) {
+                        return None;
+                    }
+                    if i > 0 {
+                        out.push_str(", ");
+                    }
+                    out.push_str(k);
+                    out.push_str(": ");
+                    v.unparse_masked(out, mask, idx, 0)?;
+                }
+                out.push('}');
+            }
+            RE::List(v) => {
+                out.push('[');
+                for (i, x) in v.iter().enumerate() {
+                    if i > 0 {
+                        out.push_str(", ");
+                    }
+                    x.unparse_masked(out, mask, idx, 0)?;
+                }
+                out.push(']');
+            }
+            RE::Un(op, x) => {
+                out.push_str(op.text());
+                if op.is_prefix() {
+                    x.unparse_masked(out, mask, idx, 7)?;
+                } else {
+                    out.push('(');
+                    x.unparse_masked(out, mask, idx, 0)?;
+                    out.push(')');
+                }
+            }
+            RE::Bin(op, l, r) => {
+                let lv = op.level();
+                if *op == BinOp::Contains {
+                    l.unparse_masked(out, mask, idx, 8)?;
+                    out.push_str(" contains ");
+                    r.unparse_masked(out, mask, idx, 8)?;
+                } else {
+                    l.unparse_masked(out, mask, idx, lv)?;
+                    out.push(' ');
+                    out.push_str(op.text());
+                    out.push(' ');
+                    r.unparse_masked(out, mask, idx, lv + 1)?;
+                }
+            }
+        }
+        if need {
+            out.push(')');
+        }
+        if extra {
+            out.push(')');
+        }
+        Some(())
+    }
+
     fn child(&self, out: &mut String, min_level: u8, full: bool) -> Option<()> {
         let compound = self.level() < 9;
         if self.level() < min_level || (full && compound) {
@@ -403,7 +531,7 @@ impl RE {
             }
             RE::IdxN(x, n) => {
                 // `f1.0` / `d1.0` would lex as one literal
-                if matches!(**x, RE::Val(RV::Float(_)) | RE::Val(RV::Dec(_))) && !full {
+                if (matches!(**x, RE::Val(RV::Float(_)) | RE::Val(RV::Dec(_))) || matches!(&**x, RE::IdxF(_, f) if field_merges_with_index(f))) && !full {
                     out.push('(');
                     x.unparse_into(out, full)?;
                     out.push(')');
